@@ -536,7 +536,7 @@ func addTree(
 		}
 		// the owner declared for the tree applies to every entry it creates, except
 		// to a directory that belongs to the distribution's filesystem layout
-		if tree.FileInfo != nil && !ownedByFilesystem(destination) {
+		if tree.FileInfo != nil && !ownedByFilesystem(NormalizeAbsoluteFilePath(destination)) {
 			c.FileInfo.Owner = tree.FileInfo.Owner
 			c.FileInfo.Group = tree.FileInfo.Group
 		}
